@@ -308,7 +308,7 @@ theorem disabled_never_runs (tbl : List MInfo) (dis : List (List Char)) (ro : Bo
     · simp [hdis]
 
 /-- and a dispatcher that is neither read-only-blocked nor disabled does run the method (the guards are not vacuous) -/
-example : ∃ w', run disabledCheck minfos [] false ['0','x','1'] ['a'] ⟨1, 1⟩ (.approve 2 5)
+example : ∃ w', run disabledCheck minfos [] false ['0','x','1'] ['a'] ⟨1, 1, 7, 0⟩ (.approve 2 5)
     ⟨fun _ => 0, fun _ => 0, fun _ => 0, fun _ => 0, fun _ _ => 0, [], 1⟩ = .ok w' := ⟨_, rfl⟩
 
 /-! ### round 2: the same statements over the dispatcher assembled from regenerated CODE (`runGen`) -/
@@ -347,7 +347,7 @@ behaves, for every state-changing call, switch list, call context, caller and wo
 blocked when read-only, else blocked when disabled, else the caller's `specEffect` -/
 theorem runGen_refines_spec (dis : List (List Char)) (ro : Bool) (addr mid : List Char) (env : Env) (call : Call) (w : World)
     (hv : call.isView = false) :
-    runGen dis ro addr mid env call w = specRun dis ro addr mid env.caller call w :=
+    runGen dis ro addr mid env call w = specRun dis ro addr mid env call w :=
   runGen_refines dis ro addr mid env call w hv
 
 /-- the specification's effect is `run` over a one-row table that meets the obligation -/
@@ -356,42 +356,42 @@ theorem specEffect_safe (c : Addr) (call : Call) (w w' : World) (h : specEffect 
   cases call with
   | transferFromShares f t s =>
     have := only_caller_pays disabledCheck [⟨"transferFromShares", false, .argFrom, true⟩] (by decide) [] false [] []
-      ⟨c, c⟩ (.transferFromShares f t s) w w' (by simpa [run, isDisabled, Call.name, resolve, Call.argFrom, specEffect] using h) a ha
+      ⟨c, c, 0, 0⟩ (.transferFromShares f t s) w w' (by simpa [run, isDisabled, Call.name, resolve, Call.argFrom, specEffect] using h) a ha
     exact this
   | view n =>
     simp only [specEffect, effect] at h; cases h; exact safe_refl _ _ _ _
   | delegate x =>
-    exact only_caller_pays disabledCheck [⟨"delegateV2", false, .caller, false⟩] (by decide) [] false [] [] ⟨c, c⟩ _ w w'
+    exact only_caller_pays disabledCheck [⟨"delegateV2", false, .caller, false⟩] (by decide) [] false [] [] ⟨c, c, 0, 0⟩ _ w w'
       (by simpa [run, isDisabled, Call.name, resolve, specEffect] using h) a ha
   | undelegate x =>
-    exact only_caller_pays disabledCheck [⟨"undelegateV2", false, .caller, false⟩] (by decide) [] false [] [] ⟨c, c⟩ _ w w'
+    exact only_caller_pays disabledCheck [⟨"undelegateV2", false, .caller, false⟩] (by decide) [] false [] [] ⟨c, c, 0, 0⟩ _ w w'
       (by simpa [run, isDisabled, Call.name, resolve, specEffect] using h) a ha
   | redelegate x =>
-    exact only_caller_pays disabledCheck [⟨"redelegateV2", false, .caller, false⟩] (by decide) [] false [] [] ⟨c, c⟩ _ w w'
+    exact only_caller_pays disabledCheck [⟨"redelegateV2", false, .caller, false⟩] (by decide) [] false [] [] ⟨c, c, 0, 0⟩ _ w w'
       (by simpa [run, isDisabled, Call.name, resolve, specEffect] using h) a ha
   | withdraw =>
-    exact only_caller_pays disabledCheck [⟨"withdraw", false, .caller, false⟩] (by decide) [] false [] [] ⟨c, c⟩ _ w w'
+    exact only_caller_pays disabledCheck [⟨"withdraw", false, .caller, false⟩] (by decide) [] false [] [] ⟨c, c, 0, 0⟩ _ w w'
       (by simpa [run, isDisabled, Call.name, resolve, specEffect] using h) a ha
   | approve sp x =>
-    exact only_caller_pays disabledCheck [⟨"approveShares", false, .caller, false⟩] (by decide) [] false [] [] ⟨c, c⟩ _ w w'
+    exact only_caller_pays disabledCheck [⟨"approveShares", false, .caller, false⟩] (by decide) [] false [] [] ⟨c, c, 0, 0⟩ _ w w'
       (by simpa [run, isDisabled, Call.name, resolve, specEffect] using h) a ha
   | transferShares t x =>
-    exact only_caller_pays disabledCheck [⟨"transferShares", false, .caller, false⟩] (by decide) [] false [] [] ⟨c, c⟩ _ w w'
+    exact only_caller_pays disabledCheck [⟨"transferShares", false, .caller, false⟩] (by decide) [] false [] [] ⟨c, c, 0, 0⟩ _ w w'
       (by simpa [run, isDisabled, Call.name, resolve, specEffect] using h) a ha
   | crossChain x y r =>
-    exact only_caller_pays disabledCheck [⟨"crossChain", false, .caller, false⟩] (by decide) [] false [] [] ⟨c, c⟩ _ w w'
+    exact only_caller_pays disabledCheck [⟨"crossChain", false, .caller, false⟩] (by decide) [] false [] [] ⟨c, c, 0, 0⟩ _ w w'
       (by simpa [run, isDisabled, Call.name, resolve, specEffect] using h) a ha
   | cancelSend i =>
-    exact only_caller_pays disabledCheck [⟨"cancelSendToExternal", false, .caller, false⟩] (by decide) [] false [] [] ⟨c, c⟩ _ w w'
+    exact only_caller_pays disabledCheck [⟨"cancelSendToExternal", false, .caller, false⟩] (by decide) [] false [] [] ⟨c, c, 0, 0⟩ _ w w'
       (by simpa [run, isDisabled, Call.name, resolve, specEffect] using h) a ha
   | increaseFee i f =>
-    exact only_caller_pays disabledCheck [⟨"increaseBridgeFee", false, .caller, false⟩] (by decide) [] false [] [] ⟨c, c⟩ _ w w'
+    exact only_caller_pays disabledCheck [⟨"increaseBridgeFee", false, .caller, false⟩] (by decide) [] false [] [] ⟨c, c, 0, 0⟩ _ w w'
       (by simpa [run, isDisabled, Call.name, resolve, specEffect] using h) a ha
   | bridgeCall r t v =>
-    exact only_caller_pays disabledCheck [⟨"bridgeCall", false, .caller, false⟩] (by decide) [] false [] [] ⟨c, c⟩ _ w w'
+    exact only_caller_pays disabledCheck [⟨"bridgeCall", false, .caller, false⟩] (by decide) [] false [] [] ⟨c, c, 0, 0⟩ _ w w'
       (by simpa [run, isDisabled, Call.name, resolve, specEffect] using h) a ha
   | executeClaim n =>
-    exact only_caller_pays disabledCheck [⟨"executeClaim", false, .caller, false⟩] (by decide) [] false [] [] ⟨c, c⟩ _ w w'
+    exact only_caller_pays disabledCheck [⟨"executeClaim", false, .caller, false⟩] (by decide) [] false [] [] ⟨c, c, 0, 0⟩ _ w w'
       (by simpa [run, isDisabled, Call.name, resolve, specEffect] using h) a ha
 
 /-- C10 first sentence over regenerated code: whenever the regenerated dispatcher lets a state-changing call through, every
@@ -405,7 +405,10 @@ theorem gen_only_caller_pays (dis : List (List Char)) (ro : Bool) (addr mid : Li
   · cases h
   · split at h
     · cases h
-    · exact specEffect_safe _ _ _ _ h a ha
+    · unfold specEffectV at h
+      split at h
+      · exact specEffect_safe _ _ _ _ h a ha
+      · cases h
 
 /-- a read-only context (any direct STATICCALL / DELEGATECALL / CALLCODE) never starts a state-changing method: the
 regenerated step order has the guard BEFORE `method.Run` -/
@@ -442,6 +445,40 @@ theorem gen_disabled_never_runs (dis : List (List Char)) (ro : Bool) (addr mid :
       by_cases h1 : (ro && !r.info.readonly) = true
       · simp [h1]
       · simp [h1]
+
+/-- the regenerated value checks of every payable method (`crossChain`, `increaseBridgeFee`, `bridgeCall`): whenever
+the error-returning comparisons that stand before `handlerOriginToken` let the call through, the amount handed to
+`handlerOriginToken` — the native coins that leave the PRECOMPILE ACCOUNT — equals the msg.value the caller sent in this
+very call, for every msg.value and every argument valuation; the coins go to the direct caller; and
+`handlerOriginToken(ctx, _, sender, amount)` sends exactly `amount` from the precompile account via the evm module to
+`sender`.  So a call can never spend coins that were on the precompile account before it -/
+theorem value_moved_is_value_sent :
+    (∀ f ∈ valueFlows, flowKnown f = true ∧
+      ∀ (v : Nat) (arg : String → Nat), f.guards.all (guardPasses v arg) = true → evalVE v arg f.taken = v) ∧
+    valueFlows.map (·.abiName) = ["bridgeCall", "crossChain", "increaseBridgeFee"] ∧
+    originTokenFlow =
+      [("params", ["ctx", "_", "sender", "amount"]), ("NewCoin", ["fxtypes.DefaultDenom", "sdkmath.NewIntFromBigInt(amount)"]),
+       ("SendCoinsFromAccountToModule", ["ctx", "crosschaintypes.GetAddress().Bytes()", "evmtypes.ModuleName", "totalCoins"]),
+       ("SendCoinsFromModuleToAccount", ["ctx", "evmtypes.ModuleName", "sender.Bytes()", "totalCoins"])] := by
+  refine ⟨?_, by decide, by decide⟩
+  intro f hf
+  simp only [valueFlows, List.mem_cons, List.not_mem_nil, or_false] at hf
+  rcases hf with rfl | rfl | rfl
+  · exact ⟨by decide, fun v arg _ => rfl⟩
+  · refine ⟨by decide, fun v arg h => ?_⟩
+    simp only [List.all_cons, List.all_nil, Bool.and_true, guardPasses, cmp_ne_zero, evalVE] at h ⊢
+    simp at h; omega
+  · refine ⟨by decide, fun v arg h => ?_⟩
+    simp only [List.all_cons, List.all_nil, Bool.and_true, guardPasses, cmp_ne_zero, evalVE] at h ⊢
+    simp at h; omega
+
+/-- hence the precompile account itself (like any other non-caller) keeps its coins through every call the regenerated
+dispatcher lets through, whatever msg.value, amount and fee are -/
+theorem precompile_account_not_debited (dis : List (List Char)) (ro : Bool) (addr mid : List Char) (env : Env) (call : Call)
+    (w w' : World) (hv : call.isView = false) (h : (runGen dis ro addr mid env call w).out = .ok w')
+    (hs : env.self ≠ env.caller) :
+    w.bal env.self + w.rewards env.self ≤ w'.bal env.self + w'.rewards env.self :=
+  (gen_only_caller_pays dis ro addr mid env call w w' hv h env.self hs).funds
 
 /-! ### histories -/
 
@@ -644,7 +681,7 @@ theorem history_no_allowance_untouchable (ops : List HOp) (w : World) (a : Addr)
 ends at 2^256−1 − (sum moved) and the three transfers all succeed -/
 example :
     let W : World := ⟨fun _ => 0, fun a => if a = 4 then 100 else 0, fun _ => 0, fun _ => 0, fun _ _ => 0, [], 1⟩
-    let mk (c : Addr) (call : Call) : HOp := ⟨.call, [], ['0', 'x'], ['a'], ⟨c, 3⟩, call⟩
+    let mk (c : Addr) (call : Call) : HOp := ⟨.call, [], ['0', 'x'], ['a'], ⟨c, 3, 7, 0⟩, call⟩
     let ops := [mk 4 (.approve 1 (2 ^ 256 - 1)), mk 1 (.transferFromShares 4 2 10), mk 1 (.transferFromShares 4 1 20),
                 mk 1 (.transferFromShares 4 4 5)]
     (runH ops W).allow 4 1 = 2 ^ 256 - 1 - 35 ∧ (runH ops W).shares 4 = 70 ∧ (runH ops W).shares 2 = 10 ∧
@@ -689,7 +726,12 @@ theorem uninvolved_unchanged (dis : List (List Char)) (ro : Bool) (addr mid : Li
   · cases h
   · split at h
     · cases h
-    · have hmove : ∀ (w0 w1 : World) p to s, moveShares w0 p to s = .ok w1 → a ≠ p → a ≠ to →
+    · have h : specEffect env.caller call w = .ok w' := by
+        unfold specEffectV at h
+        split at h
+        · exact h
+        · cases h
+      have hmove : ∀ (w0 w1 : World) p to s, moveShares w0 p to s = .ok w1 → a ≠ p → a ≠ to →
           w1.bal a = w0.bal a ∧ w1.rewards a = w0.rewards a ∧ w1.shares a = w0.shares a ∧ w1.unbonding a = w0.unbonding a ∧
           w1.allow = w0.allow := by
         intro w0 w1 p to s hm h1 h2
